@@ -236,6 +236,8 @@ func runC17(e *Engine, r *Report) {
 	ruleMatchAck(e, r, tbl)
 	ruleSnapshotStatusReported(e, r)
 	ruleRaftPredicates(e, r, "time", "dropRequestVote")
+	ruleCampaignPredicateUpper(e, r)
+	ruleDelayedRepack(e, r)
 }
 
 // c17Tables: node.tick advances every table clock on every path; gc reachable.
